@@ -363,6 +363,18 @@ func (x *XRefParser) parseXRefStream() (*XRefTable, error) {
 			return nil, fmt.Errorf("invalid /W element type: %T", val)
 		}
 		w[i] = int(intVal)
+		// Field widths are byte counts of big-endian integers; anything outside
+		// 0..8 cannot be a valid width and must not reach the slicing below.
+		if w[i] < 0 || w[i] > 8 {
+			return nil, fmt.Errorf("invalid /W field width: %d", w[i])
+		}
+	}
+	entryWidth := w[0] + w[1] + w[2]
+	if entryWidth == 0 {
+		return nil, fmt.Errorf("invalid /W array: all field widths are zero")
+	}
+	if len(index)%2 != 0 {
+		return nil, fmt.Errorf("invalid /Index array length: %d (expected pairs)", len(index))
 	}
 
 	// Parse entries from binary data
@@ -377,6 +389,10 @@ func (x *XRefParser) parseXRefStream() (*XRefTable, error) {
 	for i := 0; i < len(index); i += 2 {
 		firstObjNum := index[i]
 		count := index[i+1]
+		// The subsection cannot hold more entries than the data that is left.
+		if firstObjNum < 0 || count < 0 || count > (len(data)-dataOffset)/entryWidth {
+			return nil, fmt.Errorf("invalid /Index subsection [%d %d] for %d bytes of data", firstObjNum, count, len(data)-dataOffset)
+		}
 
 		for j := 0; j < count; j++ {
 			objNum := firstObjNum + j
